@@ -76,6 +76,13 @@ def run(ctx, res):
         for q2 in H.QUOTES[:4]:
             directed.append("CREATE TABLE t (%s int, %s int NOT NULL, note varchar(10));\nALTER TABLE t ADD CONSTRAINT fk_c FOREIGN KEY (%s) "
                             "REFERENCES customers (id);\n" % (q1("id"), q1("customer_id"), q2("customer_id")))
+    # directed: histories in which a column is renamed (or dropped and added again) after an earlier ALTER touched the table, and is then
+    # named by a later ADD ... FOREIGN KEY / UNIQUE: no stub entry may appear among the columns
+    for first in ("ALTER TABLE t ADD extra int;", "ALTER TABLE t ADD CONSTRAINT fk0 FOREIGN KEY (id) REFERENCES p (id);", "ALTER TABLE t ADD UNIQUE (note);"):
+        for mid, col in (("ALTER TABLE t RENAME COLUMN customer_id TO cust;", "cust"),
+                         ("ALTER TABLE t DROP COLUMN customer_id;\nALTER TABLE t ADD customer_id bigint;", "customer_id")):
+            directed.append("CREATE TABLE t (id int, customer_id int NOT NULL, note varchar(10));\n%s\n%s\n"
+                            "ALTER TABLE t ADD CONSTRAINT fk_c FOREIGN KEY (%s) REFERENCES customers (id);\n" % (first, mid, col))
     allddl = [(d, None) for d in ddls] + list(zip(gen, tabs)) + [(h, "hist") for h in hist] + [(d, "hist") for d in directed]
     for mode in modes:
         for group in (False, True):
